@@ -464,21 +464,25 @@ func writeStructTypes(out string) {
 // ---- function signatures ----
 
 type fnSig struct {
-	coq       string
-	stateful  bool    // takes the world and returns a new one
-	reads     bool    // takes the world, returns no new one (pure read)
-	impure    bool    // returns an outcome
-	hasErr    bool    // last Go result is `error`
-	results   []gtype // without the error
-	dropCtx   bool    // first Go argument is the context
-	ctxResult bool    // first Go result is the context (AnteHandle): dropped
-	zeroOnErr bool    // on error the Go function returns the zero values of its other results (allows the deferred-error idiom)
+	coq         string
+	stateful    bool     // takes the world and returns a new one
+	reads       bool     // takes the world, returns no new one (pure read)
+	impure      bool     // returns an outcome
+	hasErr      bool     // last Go result is `error`
+	results     []gtype  // without the error
+	dropCtx     bool     // first Go argument is the context
+	iterListing string   // an Iterate*(ctx, callback) helper: the primitive listing what it visits, in order ...
+	iterFields  []string // ... and the fields of a listed element handed to the callback's parameters
+	ctxResult   bool     // first Go result is the context (AnteHandle): dropped
+	zeroOnErr   bool     // on error the Go function returns the zero values of its other results (allows the deferred-error idiom)
 }
 
 // primitives: described by hand in model/StreamKeeperPrims.v, lib/GoSdk.v or produced in GeneratedFns.v
 var primTable map[string]fnSig
 
 var streamPrims = map[string]fnSig{
+	"k.IterateAllStreams":                       {iterListing: "allStreamsListing", iterFields: []string{"Receiver", "Sender", "Stream"}},
+	"k.allStreamsListing":                       {coq: "str_AllStreams", reads: true, results: []gtype{"L:S:StreamExport"}, dropCtx: true},
 	"k.GetStreamModuleAccount":                  {coq: "str_GetStreamModuleAccount", reads: true, results: []gtype{tModAcc}, dropCtx: true},
 	"k.bankKeeper.GetAllBalances":               {coq: "bank_GetAllBalances", reads: true, results: []gtype{tCoins}, dropCtx: true},
 	"k.accKeeper.SetModuleAccount":              {coq: "acc_SetModuleAccount", stateful: true, impure: true, dropCtx: true},
@@ -518,6 +522,7 @@ var kMethodTable = map[methodKey]fnSig{
 	{tTime, "After"}: {coq: "Time_After", results: []gtype{tBool}}, {tTime, "Before"}: {coq: "Time_Before", results: []gtype{tBool}},
 	{tTime, "Equal"}: {coq: "Time_Equal", results: []gtype{tBool}}, {tTime, "UTC"}: {coq: "Time_UTC", results: []gtype{tTime}},
 	{tAddr, "String"}:       {coq: "Addr_String", results: []gtype{tAddrStr}},
+	{tAddrStr, "String"}:    {coq: "Addr_String", results: []gtype{tAddrStr}}, // an address handed over as its text
 	{tAddr, "Empty"}:        {coq: "Addr_Empty", results: []gtype{tBool}},
 	{tAddr, "Equals"}:       {coq: "Addr_Equals", results: []gtype{tBool}},
 	{tDec, "IsNil"}:         {coq: "Dec_IsNil", results: []gtype{tBool}},
@@ -714,9 +719,9 @@ var modules = map[string]*moduleSpec{
 		prims: enterprisePrims, consts: map[string]constDef{"types.ModuleName": {"MOD_enterprise", tModName}, "k.authority": {"KEEPER_authority", tAddrStr}}, world: "eworld",
 		imports:  "lib.Prelude lib.GoSdk GeneratedEnterpriseTypes model.EnterpriseKeeperPrims",
 		typesMod: "GeneratedEnterpriseTypes", keeperMod: "GeneratedEnterpriseKeeper", listName: "enterprise_keeper_other_functions"},
-	"stream": {name: "stream", typeFuncs: [][2]string{{"params.go", "validateBaseValidatorFee"}, {"params.go", "Params.Validate"}}, pbFiles: []string{"params.pb.go", "stream.pb.go", "tx.pb.go", "genesis.pb.go"}, goFiles: []string{"stream.go", "msg_server.go", "genesis.go"},
+	"stream": {name: "stream", typeFuncs: [][2]string{{"params.go", "validateBaseValidatorFee"}, {"params.go", "Params.Validate"}, {"genesis.go", "NewGenesisState"}}, pbFiles: []string{"params.pb.go", "stream.pb.go", "tx.pb.go", "genesis.pb.go"}, goFiles: []string{"stream.go", "msg_server.go", "genesis.go"},
 		want: []string{"addSeconds", "ClaimFromStream", "AddDeposit", "SetNewFlowRate", "CancelStreamBySenderReceiver",
-			"CreateNewStream", "CreateStream", "ClaimStream", "TopUpDeposit", "UpdateFlowRate", "CancelStream", "UpdateParams", "InitGenesis"},
+			"CreateNewStream", "CreateStream", "ClaimStream", "TopUpDeposit", "UpdateFlowRate", "CancelStream", "UpdateParams", "InitGenesis", "ExportGenesis"},
 		prims: streamPrims, consts: streamConsts, world: "kworld",
 		imports:  "lib.Prelude lib.GoSdk GeneratedFns GeneratedStreamTypes model.StreamKeeperPrims",
 		typesMod: "GeneratedStreamTypes", keeperMod: "GeneratedStreamKeeper", listName: "stream_keeper_other_functions",
@@ -1517,6 +1522,60 @@ func (kt *kTrans) stmts(list []ast.Stmt) string {
 		}
 		if exprName(ce.Fun) == "panic" {
 			return "Panic " + cur.name + "_PANIC"
+		}
+		if sig, found := kt.lookup(kt.callName(ce.Fun)); found && sig.iterListing != "" {
+			// k.IterateX(ctx, func(a, b, c) bool { ..; return false }): a loop over the listing primitive; the
+			// callback's parameters are the fields of the listed element; `return false` = go on (a callback that can
+			// stop the iteration is not supported)
+			lit, isLit := ce.Args[len(ce.Args)-1].(*ast.FuncLit)
+			if !isLit {
+				kt.fail("%s without a function literal", kt.callName(ce.Fun))
+				return "?"
+			}
+			var pnames []string
+			for _, p := range lit.Type.Params.List {
+				for _, n := range p.Names {
+					pnames = append(pnames, n.Name)
+				}
+			}
+			if len(pnames) != len(sig.iterFields) {
+				kt.fail("%s: callback with %d parameters", kt.callName(ce.Fun), len(pnames))
+				return "?"
+			}
+			body := append([]ast.Stmt{}, lit.Body.List...)
+			n := len(body)
+			if n == 0 {
+				kt.fail("empty iteration callback")
+				return "?"
+			}
+			if rs, isRet := body[n-1].(*ast.ReturnStmt); !isRet || len(rs.Results) != 1 || exprName(rs.Results[0]) != "false" {
+				kt.fail("iteration callback does not end with `return false`")
+				return "?"
+			}
+			body = body[:n-1]
+			bad := false
+			for _, st := range body {
+				ast.Inspect(st, func(nd ast.Node) bool {
+					if _, isRet := nd.(*ast.ReturnStmt); isRet {
+						bad = true
+					}
+					return true
+				})
+			}
+			if bad {
+				kt.fail("iteration callback returns in the middle")
+				return "?"
+			}
+			it := ast.NewIdent("it" + kt.tmp())
+			var pre []ast.Stmt
+			for i, pn := range pnames {
+				pre = append(pre, &ast.AssignStmt{Lhs: []ast.Expr{ast.NewIdent(pn)}, Tok: token.DEFINE,
+					Rhs: []ast.Expr{&ast.SelectorExpr{X: it, Sel: ast.NewIdent(sig.iterFields[i])}}})
+			}
+			rng := &ast.RangeStmt{Key: ast.NewIdent("_"), Value: it, Tok: token.DEFINE,
+				X:    &ast.CallExpr{Fun: &ast.SelectorExpr{X: ast.NewIdent("k"), Sel: ast.NewIdent(sig.iterListing)}, Args: []ast.Expr{ast.NewIdent("ctx")}},
+				Body: &ast.BlockStmt{List: append(pre, body...)}}
+			return kt.rangeStmt(rng, rest)
 		}
 		line, rest2, ok := kt.bindCall(nil, ce, rest)
 		if !ok {
@@ -2431,7 +2490,13 @@ func writeKeeper(repo, module, typesOut, keeperOut string) {
 	var prims []string
 	for k := range cur.prims {
 		if strings.HasPrefix(k, "k.") && !strings.Contains(strings.TrimPrefix(k, "k."), ".") {
-			prims = append(prims, strings.TrimPrefix(k, "k."))
+			synthetic := false // the listing behind an Iterate* helper is not a Go function
+			for _, ps := range cur.prims {
+				synthetic = synthetic || ps.iterListing == strings.TrimPrefix(k, "k.")
+			}
+			if !synthetic {
+				prims = append(prims, strings.TrimPrefix(k, "k."))
+			}
 		}
 	}
 	// ... and, transitively, the module functions those bodies call
